@@ -21,7 +21,7 @@ ASSUMPTIONS = ['failure to establish a connection is excepted by the property: t
                'binary transactions whose frames contain delimiter bytes are excluded (KF-BINARY-FRAMER-DELIMITER-BYTES)']
 BUDGET = {'quick': 8000, 'thorough': 12000}
 CLIENTS = ['tcp', 'rtu', 'ascii', 'binary', 'udp', 'tcp+rtu', 'tcp+ascii']
-BEHAVIOURS = ['reply', 'exc', 'nothing', 'partial', 'garbage', 'wrong_unit', 'stale', 'late', 'oserror_send', 'oserror_recv', 'close', 'undecodable']
+BEHAVIOURS = ['reply', 'exc', 'nothing', 'partial', 'garbage', 'wrong_unit', 'stale', 'late', 'oserror_send', 'oserror_recv', 'close', 'undecodable', 'wrong_unit_long']
 
 
 def framing_of(c):
@@ -58,7 +58,7 @@ def sweeps(tier):
     import itertools
     cases = []
     beh = [['reply'], ['exc'], ['nothing'], ['partial', 3], ['garbage', 'deadbeef00112233445566'], ['wrong_unit'], ['stale'], ['late'],
-           ['oserror_send'], ['oserror_recv'], ['close'], ['undecodable']]
+           ['oserror_send'], ['oserror_recv'], ['close'], ['undecodable'], ['wrong_unit_long']]
     settings = [(0, False, False), (3, False, False), (2, True, False), (2, False, True), (1, True, True), (0, True, True), (3, True, True)]
     maxlen = 3 if tier == 'thorough' else 2
     for client in CLIENTS:
@@ -120,6 +120,10 @@ class FaultPeer(transports.Peer):
             return [(0.0, bytes.fromhex(beh[1]))]
         if beh[0] == 'wrong_unit':
             return [(0.0, refframe.build(self.framing, (uid % 247) + 1, good, tid, 0))]
+        if beh[0] == 'wrong_unit_long':
+            # traffic of another unit on a shared line: a well-formed frame that is longer than the reply this request predicts
+            other = specpdu.encode('rsp:3', {'registers': [(self.seq * 31 + i) & 0xFFFF for i in range(11 + self.seq % 5)]})
+            return [(0.0, refframe.build(self.framing, (uid % 247) + 1, other, tid, 0))]
         if beh[0] == 'stale':
             return [(0.0, refframe.build(self.framing, uid, transports.reply_pdu(rpdu, self.seq + 500), (tid + 7) & 0xFFFF, 0))]
         if beh[0] == 'undecodable':
@@ -223,9 +227,9 @@ def run_case(case):
         # retry semantics
         if not discs and not case.get('bcast'):
             beh = [b[0] for b in case['script']]
-            for flag, fault in (('retry_on_empty', 'nothing'), ('retry_on_invalid', 'wrong_unit')):
+            for flag, fault in (('retry_on_empty', ('nothing',)), ('retry_on_invalid', ('wrong_unit', 'wrong_unit_long'))):
                 j = 0
-                while j < len(beh) and beh[j] == fault:
+                while j < len(beh) and beh[j] in fault:
                     j += 1
                 if case[flag] and 0 < j <= case['retries'] and j < len(beh) and beh[j] in ('reply', 'exc'):
                     labels.append('retry-expected:' + flag)
